@@ -6,7 +6,7 @@ from concurrent.futures import ThreadPoolExecutor
 from vf import build, framework as fw
 
 RULE = ("[the foreign-call matrix runs twice: owner parked on a barrier, and owner parked inside a callback of the victim; foreign threads also poll the plain getters while the owner drives a module through start/pause/resume/stop] "
-        "each run starts T = 2..8 threads, every one registering its own context with 2-4 modules (same module names in every "
+        "choreographed task rounds: context A pauses the module of a running task, context B then registers a task of its own, A's task function returns first - B must see exactly one task event, after its own function returned, with its own return value. each run starts T = 2..8 threads, every one registering its own context with 2-4 modules (same module names in every "
         "context), literal + regex subscriptions, a descriptor source, 1-1.5 ms timers and task sources, and running a seeded "
         "deterministic program from its leader's timer (publish / tell / broadcast / descriptor writes / task registration) until "
         "quit, then tearing down; executed concurrently under TSan and under ASan; every ThreadSanitizer report is a violation (keyed "
@@ -53,6 +53,10 @@ def run(tier):
         for k in range(4 if tier == "quick" else 40):
             jobs.append(("matrix-" + v, exe, [s + k, 2, 5, 2]))
 
+    # task completion stays inside its context (choreographed, ASan build; see harness/multictx.c mode 3)
+    for k in range(4 if tier == "quick" else 80):
+        jobs.append(("choreo", exe_a, [s + k, 2, 10 if tier == "quick" else 25, 3]))
+
     def one(j):
         return j, fw.run_proc([j[1]] + [str(a) for a in j[2]], 600)
     with ThreadPoolExecutor(max(2, fw.NPROC // 4)) as ex:      # each run is itself multi-threaded
@@ -95,6 +99,11 @@ def run(tier):
             res.count("contexts_run_" + v, len(set(l.split()[1] for l in cl)))
             if v == "tsan" and len(res.samples) < 3:
                 res.samples.append({"args": args, "per_context_counters": cl[:8]})
+        if v == "choreo":
+            res.count("choreographed_task_rounds", stats.get("choreographed_task_rounds", 0))
+            res.count("choreographed_task_rounds_clean", stats.get("choreographed_task_rounds_clean", 0))
+            if stats.get("choreographed_task_rounds_without_verdict", 0):
+                res.inconclusive.append({"what": "choreographed task rounds in which context B's own task event did not arrive within 2 s", "rounds": stats["choreographed_task_rounds_without_verdict"], "cmd": replay["cmd"]})
         for l in other:
             if l.startswith("COVERED "):
                 _c, role, name = l.split(" ", 2)
